@@ -68,7 +68,7 @@ func main() {
 	c.World = NewWorld(filepath.Join(*work, "world"))
 	bins := map[string]string{}
 	c.RealBins = map[string]string{}
-	for _, n := range []string{"ti", "rbs2json", "c2json", "lexsim"} {
+	for _, n := range []string{"ti", "rbs2json", "c2json", "lexsim", "simlab"} {
 		bins[n] = filepath.Join(*work, n+"-sim")
 		c.RealBins[n] = filepath.Join(*work, n+"-real")
 	}
@@ -329,6 +329,8 @@ func writeEvidence(c *Ctx, o Oracle, g gateResult, violations int) {
 		"counters":                      counters,
 		"distinct_orders_per_map_site":  siteOrders,
 		"worker_respawns":               c.Pool.Respawns.Load(),
+		"goroutine_schedule_decisions":  c.Pool.Sched.Load(),
+		"map_order_decisions":           c.Pool.MapDec.Load(),
 		"real_vs_stub": map[string]string{
 			"real":      "all ruby-ti Go code (every package, rebuilt from the working tree), Go scheduler for ti's two goroutines, kernel tmpfs as the disk",
 			"simulated": "wall clock and the 500 ms watchdog timer (tick-driven virtual clock), Go map iteration order, process exit, goroutine panics, file content/fault state, editor and LSP clients",
